@@ -81,6 +81,14 @@ type hsReq struct {
 
 // Run implements harness.Harness.
 func (Handshake) Run(ch *choice.Source, opt harness.Options) harness.Result {
+	return runHandshake(ch, opt, false)
+}
+
+// runHandshake is the body of parts (b) and (c). With realCP false the command
+// processors are protocol stubs (part b, decision stream unchanged since
+// c19-handshake-v1); with realCP true each GPU has the real cp.CommandProcessor
+// with stub components behind it (part c, cpctrl.go).
+func runHandshake(ch *choice.Source, opt harness.Options, realCP bool) harness.Result {
 	const pageSize = 4096
 	r := rig.New(ch, 3_000_000)
 	nGPU := 2 + ch.Intn(3, "gpus")
@@ -103,7 +111,8 @@ func (Handshake) Run(ch *choice.Source, opt harness.Options) harness.Result {
 	next := uint64(pageSize) + 4<<30
 	const gpuPages = 64
 	var pmcPorts []sim.Port
-	var cps []*stubs.Responder
+	var cpPorts []sim.Port // the port of each GPU's command processor that faces the driver
+	var cpOras []*cpOracle
 
 	var viol *harness.Result
 	fail := func(rule, sig, format string, a ...any) {
@@ -134,6 +143,10 @@ func (Handshake) Run(ch *choice.Source, opt harness.Options) harness.Result {
 
 	for g := 0; g < nGPU; g++ {
 		g := g
+		if realCP {
+			// part (c): the real command processor, built after the driver's ports exist
+			continue
+		}
 		cp := r.Responder(fmt.Sprintf("CP[%d]", g), 2+ch.Intn(6, "cp.inbuf"), 2+ch.Intn(6, "cp.outbuf"), nil)
 		cp.Serve = func(m sim.Msg, _ uint64) []sim.Msg {
 			src, dst := cp.Port.AsRemote(), m.Meta().Src
@@ -169,13 +182,25 @@ func (Handshake) Run(ch *choice.Source, opt harness.Options) harness.Result {
 			fail("R3", "unexpected-message-to-cp", "CP[%d] got %T", g, m)
 			return nil
 		}
-		cps = append(cps, cp)
+		cpPorts = append(cpPorts, cp.Port)
 		d.RegisterGPU(cp.Port, driver.DeviceProperties{CUCount: 4, DRAMSize: gpuPages * pageSize})
 		devBase = append(devBase, next)
 		next += gpuPages * pageSize
 		pmc := sim.NewPort(cp, 1, 1, fmt.Sprintf("CP[%d].PMCRemote", g))
 		pmcPorts = append(pmcPorts, pmc)
 		d.RemotePMCPorts = append(d.RemotePMCPorts, pmc)
+	}
+	if realCP {
+		for g := 0; g < nGPU; g++ {
+			proc, pmc, ora := buildRealCP(r, ch, g, d.GetPortByName("GPU"), memModel, pageSize, fail, probes)
+			cpPorts = append(cpPorts, proc.ToDriver)
+			cpOras = append(cpOras, ora)
+			d.RegisterGPU(proc.ToDriver, driver.DeviceProperties{CUCount: 4, DRAMSize: gpuPages * pageSize})
+			devBase = append(devBase, next)
+			next += gpuPages * pageSize
+			pmcPorts = append(pmcPorts, pmc)
+			d.RemotePMCPorts = append(d.RemotePMCPorts, pmc)
+		}
 	}
 	devOf := func(paddr uint64) int {
 		for g := 1; g <= nGPU; g++ {
@@ -255,9 +280,7 @@ func (Handshake) Run(ch *choice.Source, opt harness.Options) harness.Result {
 
 	// ---- wiring ----
 	ports := []sim.Port{gpuPort}
-	for _, cp := range cps {
-		ports = append(ports, cp.Port)
-	}
+	ports = append(ports, cpPorts...)
 	r.Conn("ConnGPU", ports...)
 	r.Conn("ConnMMU", mmuPortD, migPort)
 	tports := []sim.Port{top}
@@ -324,6 +347,10 @@ func (Handshake) Run(ch *choice.Source, opt harness.Options) harness.Result {
 
 	r.Rec.OnEvent = func(e *monitor.Event) {
 		if viol != nil {
+			return
+		}
+		if len(e.Port) > 3 && e.Port[:3] == "cp/" {
+			cpOras[int(e.Port[3]-'0')].onEvent(e)
 			return
 		}
 		switch e.Port {
@@ -395,7 +422,7 @@ func (Handshake) Run(ch *choice.Source, opt harness.Options) harness.Result {
 						fail("R1", "copy-reads-wrong-source", "page copy reads %#x, the page was at %#x", m.ToReadFromPhysicalAddress, p.curPAddr)
 					case devOf(m.ToWriteToPhysicalAddress) != int(wantDev):
 						fail("R2", "page-rehomed-to-wrong-device", "page requested by GPU %d is copied to %#x (device %d)", wantDev, m.ToWriteToPhysicalAddress, devOf(m.ToWriteToPhysicalAddress))
-					case m.Meta().Dst != cps[wantDev-1].Port.AsRemote():
+					case m.Meta().Dst != cpPorts[wantDev-1].AsRemote():
 						fail("R4", "copy-sent-to-wrong-gpu", "page copy for GPU %d sent to %s", wantDev, m.Meta().Dst)
 					case m.DestinationPMCPort != pmcPorts[p.curDev-1]:
 						fail("R4", "copy-pulls-from-wrong-pmc", "page on GPU %d is pulled from %s", p.curDev, m.DestinationPMCPort.Name())
@@ -473,6 +500,11 @@ func (Handshake) Run(ch *choice.Source, opt harness.Options) harness.Result {
 			}
 			if viol == nil && ep.active {
 				fail("LIVE", "handshake-unfinished", "migration handshake never finished: %+v; end=%q", ep, end)
+			}
+			for _, o := range cpOras {
+				if viol == nil {
+					o.atEnd()
+				}
 			}
 		}
 	}
